@@ -106,6 +106,16 @@ static inline void handle_werror(wchar_t *restrict dest, const rsize_t dmax,
 int handle_str_bos_overflow(const char *restrict msg, char *restrict dest,
                             const rsize_t dmax);
 
+/*
+ * Returns 1 if the printf/scanf format contains a %n conversion, i.e. a
+ * conversion specification ending in 'n' after any flags, field width,
+ * precision and length modifiers. "%%" is an escaped percent sign.
+ */
+int safec_fmt_has_n(const char *restrict fmt);
+#ifndef SAFECLIB_DISABLE_WCHAR
+int safec_wfmt_has_n(const wchar_t *restrict fmt);
+#endif
+
 #ifndef SAFECLIB_DISABLE_CONSTRAINT_HANDLER
 /*
  * Safe C Lib internal string handler to handle deviating compile-time known
